@@ -372,3 +372,169 @@ Theorem get_assertion_store_all script :
         (snd (interp (get_assertion ad_bytes c q) script)) = true.
 Proof. apply derivative_sound. apply get_assertion_store. Qed.
 End Get.
+
+(** *** Reading the judgements: what an Ok result implies, in plain terms *)
+
+Lemma andb_split a b : a && b = true -> a = true /\ b = true.
+Proof. apply andb_true_iff. Qed.
+
+Ltac bsplit :=
+  repeat match goal with
+  | H : _ && _ = true |- _ => apply andb_split in H; destruct H
+  end.
+
+Lemma ob_eqb_eq a b : ob_eqb a b = true -> a = b.
+Proof. unfold ob_eqb. destruct a, b; cbn; try discriminate; auto. intros E. apply beq_eq in E. congruence. Qed.
+Lemma optN_eqb_eq a b : opt_eqb N.eqb a b = true -> a = b.
+Proof. destruct a, b; cbn; try discriminate; auto. intros E. apply N.eqb_eq in E. congruence. Qed.
+Lemma list_beq_eq l l' : list_eqb beq l l' = true -> l = l'.
+Proof.
+  revert l'. induction l as [|x l IH]; intros [|y l']; cbn; try discriminate; auto.
+  intros E. apply andb_true_iff in E as [E1 E2]. f_equal; [apply beq_eq; assumption|apply IH; assumption].
+Qed.
+Lemma oids_eqb_eq a b : opt_eqb (list_eqb beq) a b = true -> a = b.
+Proof. destruct a, b; cbn; try discriminate; auto. intros E. f_equal. apply list_beq_eq. exact E. Qed.
+Lemma hmac_eqb_eq a b : hmac_eqb a b = true -> a = b.
+Proof.
+  unfold hmac_eqb. destruct a as [[w wo]|], b as [[w' wo']|]; cbn; try discriminate; auto.
+  intros E. apply andb_true_iff in E as [E1 E2]. apply beq_eq in E1. apply ob_eqb_eq in E2. congruence.
+Qed.
+Lemma passkey_eqb_eq p p' : passkey_eqb p p' = true -> p = p'.
+Proof.
+  unfold passkey_eqb, keymat_eqb, bool_eqb.
+  destruct p as [[e c d x y] id rp uh ctr hm], p' as [[e' c' d' x' y'] id' rp' uh' ctr' hm']. cbn.
+  intros H. repeat match goal with H : _ && _ = true |- _ => apply andb_true_iff in H; destruct H end.
+  repeat match goal with H : beq _ _ = true |- _ => apply beq_eq in H end.
+  repeat match goal with H : Bool.eqb _ _ = true |- _ => apply Bool.eqb_prop in H end.
+  repeat match goal with H : ob_eqb _ _ = true |- _ => apply ob_eqb_eq in H end.
+  match goal with H : opt_eqb N.eqb _ _ = true |- _ => apply optN_eqb_eq in H end.
+  match goal with H : hmac_eqb _ _ = true |- _ => apply hmac_eqb_eq in H end.
+  subst. reflexivity.
+Qed.
+
+Section Readings.
+Variable ad_bytes : auth_data -> bytes.
+
+(** a successful assertion: the first interesting event is the lookup with the request's RP ID and
+    (non-empty) allow list; the credential used is the first one of its answer; if that credential
+    has a counter [n] the next event is the update with counter [counter_next n], answered Ok, and the
+    reported counter is that value; the last event is the signature with that credential's key over
+    the returned authenticator data followed by the client data hash. *)
+Lemma j_get_ok_inv q evs r :
+  j_get ad_bytes q evs (Some (Ok r)) = true ->
+  exists r0 cred0 rest,
+    evs = (EFind (match ga_allow q with Some ((_ :: _) as l) => Some l | _ => None end) (ga_rp_id q), AFind r0) :: rest
+    /\ first_credential r0 = Ok cred0
+    /\ gr_cred_id r = pk_cred_id cred0
+    /\ gr_user_handle r = pk_user_handle cred0
+    /\ ad_rp_id (gr_auth_data r) = ga_rp_id q
+    /\ ad_acd (gr_auth_data r) = None
+    /\ exists d sg, private_key (pk_key cred0) = Ok d /\ gr_signature r = sg /\
+       match pk_counter cred0 with
+       | Some n => rest = [(EUpdate (bump_counter cred0 n), AUnit (Ok tt));
+                           (ESign d (ad_bytes (gr_auth_data r) ++ ga_cdh q), ABytes sg)]
+                   /\ ad_counter (gr_auth_data r) = Some (counter_next n)
+       | None => rest = [(ESign d (ad_bytes (gr_auth_data r) ++ ga_cdh q), ABytes sg)]
+                 /\ ad_counter (gr_auth_data r) = None
+       end.
+Proof.
+  unfold j_get. destruct evs as [|[e a] rest]; [discriminate|].
+  destruct e; try discriminate. intros H. bsplit.
+  destruct a; try (bsplit; discriminate).
+  destruct (first_credential r0) as [cred0|e] eqn:Hfc; [|bsplit; discriminate].
+  match goal with H : opt_eqb _ _ _ = true |- _ => apply oids_eqb_eq in H; subst ids end.
+  match goal with H : beq rp _ = true |- _ => apply beq_eq in H; subst rp end.
+  exists r0, cred0, rest. split; [reflexivity|]. split; [exact Hfc|].
+  assert (SIGN : forall cred evs', j_sign ad_bytes q cred cred0 evs' (Some (Ok r)) = true ->
+     gr_cred_id r = pk_cred_id cred0 /\ gr_user_handle r = pk_user_handle cred0 /\
+     ad_rp_id (gr_auth_data r) = ga_rp_id q /\ ad_acd (gr_auth_data r) = None /\
+     exists d sg, private_key (pk_key cred0) = Ok d /\ gr_signature r = sg /\
+       evs' = [(ESign d (ad_bytes (gr_auth_data r) ++ ga_cdh q), ABytes sg)] /\
+       ad_counter (gr_auth_data r) = pk_counter cred).
+  { intros cred evs'. unfold j_sign. destruct evs' as [|[e a] [|p l]]; [discriminate| |destruct e; discriminate].
+    destruct e; try discriminate. intros G. bsplit.
+    destruct (private_key (pk_key cred0)) as [d|] eqn:Hpk; [|discriminate].
+    destruct a; try discriminate. bsplit.
+    repeat match goal with H : beq _ _ = true |- _ => apply beq_eq in H end.
+    match goal with H : ob_eqb _ _ = true |- _ => apply ob_eqb_eq in H end.
+    match goal with H : opt_eqb N.eqb _ _ = true |- _ => apply optN_eqb_eq in H end.
+    destruct (ad_acd (gr_auth_data r)) eqn:Hacd; [discriminate|].
+    subst. repeat split; auto. exists key, (gr_signature r). repeat split; auto. }
+  match goal with H : j_selected _ _ _ _ _ = true |- _ => rename H into Hsel end.
+  unfold j_selected in Hsel. destruct (pk_counter cred0) as [n|] eqn:Hctr.
+  - destruct rest as [|[e a] rest']; [discriminate|]. destruct e; try discriminate. bsplit.
+    destruct a; try (bsplit; discriminate). destruct r1 as [[]|]; [|bsplit; discriminate].
+    match goal with H : j_sign _ _ _ _ _ _ = true |- _ => apply SIGN in H; destruct H as (A & B & C & D & d & sg & E & F & G & Hc) end.
+    match goal with H : passkey_eqb p _ = true |- _ => apply passkey_eqb_eq in H; subst p end.
+    repeat split; auto. exists d, sg. repeat split; auto; try (subst rest'; reflexivity); try (rewrite Hc; reflexivity).
+  - apply SIGN in Hsel. destruct Hsel as (A & B & C & D & d & sg & E & F & G & Hc).
+    repeat split; auto. exists d, sg. repeat split; auto. congruence.
+Qed.
+End Readings.
+
+Lemma user_eqb_eq a b : user_eqb a b = true -> a = b.
+Proof.
+  unfold user_eqb. destruct a, b. cbn. intros H. bsplit.
+  repeat match goal with H : beq _ _ = true |- _ => apply beq_eq in H end.
+  repeat match goal with H : ob_eqb _ _ = true |- _ => apply ob_eqb_eq in H end. subst. reflexivity.
+Qed.
+Lemma rp_eqb_eq a b : rp_eqb a b = true -> a = b.
+Proof.
+  unfold rp_eqb. destruct a, b. cbn. intros H. bsplit.
+  repeat match goal with H : beq _ _ = true |- _ => apply beq_eq in H end.
+  repeat match goal with H : ob_eqb _ _ = true |- _ => apply ob_eqb_eq in H end. subst. reflexivity.
+Qed.
+Lemma options_eqb_eq a b : options_eqb a b = true -> a = b.
+Proof.
+  unfold options_eqb, bool_eqb. destruct a, b. cbn. intros H. bsplit.
+  repeat match goal with H : Bool.eqb _ _ = true |- _ => apply Bool.eqb_prop in H end. subst. reflexivity.
+Qed.
+
+(** a successful registration: the interesting events are an optional exclude lookup (answered
+    empty or with an error), the store-capability queries, and then exactly one save - the last
+    event - of a passkey with the request's user, RP and options, answered Ok; the passkey is the one
+    the response describes. *)
+Lemma j_make_ok_inv c q evs r :
+  j_make c q evs (Some (Ok r)) = true ->
+  exists pre d p,
+    evs = pre ++ [(EStoreInfo, AInfo d); (ESave p (mc_user q) (mc_rp q) (mc_opts q), AUnit (Ok tt))]
+    /\ Forall (fun ev => match fst ev with EFind _ _ | EStoreInfo => True | _ => False end) pre
+    /\ saved_passkey_ok c q d p = true
+    /\ response_matches c q p r = true.
+Proof.
+  assert (SAVE : forall d evs', j_save c q d evs' (Some (Ok r)) = true ->
+     exists p, evs' = [(ESave p (mc_user q) (mc_rp q) (mc_opts q), AUnit (Ok tt))]
+               /\ saved_passkey_ok c q d p = true /\ response_matches c q p r = true).
+  { intros d evs'. unfold j_save. destruct evs' as [|[e a] [|x l]]; [discriminate| |destruct e; discriminate].
+    destruct e; try discriminate. intros H. bsplit.
+    destruct a; try discriminate. destruct r0 as [[]|]; [|discriminate].
+    match goal with H : user_eqb _ _ = true |- _ => apply user_eqb_eq in H; subst u end.
+    match goal with H : rp_eqb _ _ = true |- _ => apply rp_eqb_eq in H; subst rp end.
+    match goal with H : options_eqb _ _ = true |- _ => apply options_eqb_eq in H; subst o end.
+    exists p. auto. }
+  assert (INFO : forall evs', j_info c q evs' (Some (Ok r)) = true ->
+     exists d p, evs' = [(EStoreInfo, AInfo d); (ESave p (mc_user q) (mc_rp q) (mc_opts q), AUnit (Ok tt))]
+               /\ saved_passkey_ok c q d p = true /\ response_matches c q p r = true).
+  { intros evs'. unfold j_info. destruct evs' as [|[e a] rest]; [discriminate|].
+    destruct e; try discriminate. destruct a; try (destruct rest; discriminate).
+    intros H. apply SAVE in H as (p & -> & H1 & H2). eauto. }
+  assert (RK : forall evs', j_rk c q evs' (Some (Ok r)) = true ->
+     exists pre d p, evs' = pre ++ [(EStoreInfo, AInfo d); (ESave p (mc_user q) (mc_rp q) (mc_opts q), AUnit (Ok tt))]
+               /\ Forall (fun ev => match fst ev with EFind _ _ | EStoreInfo => True | _ => False end) pre
+               /\ saved_passkey_ok c q d p = true /\ response_matches c q p r = true).
+  { intros evs'. unfold j_rk. destruct (o_rk (mc_opts q)).
+    - destruct evs' as [|[e a] rest]; [discriminate|]. destruct e; try discriminate.
+      destruct a; try (destruct rest; discriminate).
+      destruct (disc_eqb d OnlyNonDiscoverable); [intros H; bsplit; discriminate|].
+      intros H. apply INFO in H as (d' & p & -> & H1 & H2).
+      exists [(EStoreInfo, AInfo d)], d', p. repeat split; auto. constructor; [exact I|constructor].
+    - intros H. apply INFO in H as (d' & p & -> & H1 & H2). exists [], d', p. repeat split; auto. }
+  unfold j_make. destruct (mc_exclude q) as [[|id ids]|]; try exact (RK evs).
+  destruct evs as [|[e a] rest]; [discriminate|]. destruct e; try discriminate. intros H. bsplit.
+  destruct a; try (bsplit; discriminate). destruct r0 as [[|x l]|e]; cbv beta iota in *.
+  - match goal with H : j_rk _ _ _ _ = true |- _ => apply RK in H as (pre & d & p & -> & F & G1 & G2) end.
+    eexists (_ :: pre), d, p. repeat split; auto. constructor; [exact I|exact F].
+  - bsplit. discriminate.
+  - match goal with H : j_rk _ _ _ _ = true |- _ => apply RK in H as (pre & d & p & -> & F & G1 & G2) end.
+    eexists (_ :: pre), d, p. repeat split; auto. constructor; [exact I|exact F].
+Qed.
